@@ -46,7 +46,7 @@ def gen_form_case(rng, tier, forms=("arc", "path", "seq"), heur_p=0.35, nmax=Non
         if rng.random() < 0.4:
             # queries issued BEFORE the heuristic (fills the object's caches; they must not matter afterwards)
             case["pre"] = rng.sample(["n", "obj", "con", "qubo_o", "qubo_f"], rng.randint(1, 3))
-    if form == "seq" and case.get("heur") is not None and rng.random() < 0.3:
+    if form == "seq" and case.get("heur") is not None and rng.random() < 0.45:
         # a depot window that closes: the heuristic's exit arcs may be refused, so it raises after it has already added vehicles / arcs;
         # the half-updated object must still report what its state says (with queries issued before)
         his = [Fraction(nd["hi"]) for nd in spec["nodes"][1:] if nd["hi"] != "inf"]
@@ -98,6 +98,22 @@ def shrink_form_case(case):
             arcs = [list(x) for x in spec["arcs"]]
             arcs[i][3] = "1"
             yield dict(case, spec=dict(spec, arcs=arcs))
+
+
+def gen_raising_seq_case(rng):
+    """a sequence-based case whose heuristic raises AFTER it has changed the object: no regular vehicle, and a depot window that closes
+    before some customer's window opens, so the exit arc of that customer's dummy vehicle is refused; queries are issued before"""
+    spec, info = VU.gen_planted(rng, ncust=rng.randint(1, 3), extra_arc_p=0.3, wide=True)
+    los = [Fraction(nd["lo"]) for nd in spec["nodes"][1:]]
+    if max(los) <= 0:
+        nd = rng.choice(spec["nodes"][1:])
+        nd["lo"] = "1"
+        if nd["hi"] != "inf" and Fraction(nd["hi"]) < 1:
+            nd["hi"] = "2"
+        los = [Fraction(n_["lo"]) for n_ in spec["nodes"][1:]]
+    spec["nodes"][0]["hi"] = fs(max(los) - Fraction(1, 4))
+    return dict(form="seq", spec=spec, strict=False, V=rng.choice([0, 0, 1]), L=max(3, info["Lmin"]), seed=rng.randrange(10 ** 6),
+                heur=rng.choice(["10", "1000"]), pre=rng.sample(["n", "obj", "con", "qubo_o", "qubo_f"], rng.randint(1, 3)))
 
 
 EXHAUSTIVE_FORMS_SCOPE = ("every VRPTW on a depot and two customers a, b with windows a in {[0,inf), [1,2], [2,2]}, b in {[0,inf), [1,3]}, every subset of the "
